@@ -61,7 +61,10 @@ MillerDrift(e) == LET P == AbsJ("G1", e.p)  Qp == AbsJ("G2", e.q)  QJ == << Qp[1
                        IF MA!MillerPrepared(MA!Prepare(QJ), P) = D12(e.m2) THEN "drift.miller_prepared.same" ELSE "drift.miller_prepared.diff" }
 TowerOps == {"x.consts", "x.fq12.mul", "x.fq12.inv", "x.fq12.frob", "x.fq12.mul015", "x.fq12.pow", "x.fq12.scale",
              "x.fq4.mul", "x.fq4.mul1", "x.fq4.frob", "x.fe", "x.miller"}
-ChkTower(e) == CASE e.op = "x.consts" -> ChkXConsts(e)
+\* the constants of the code's addition chains are those of the Level-B model ImplFinalExp: a DRIFT indicator (coverage), never a
+\* verdict - C17 constrains the values computed by the final exponentiation (x.fe), not how the chain is organised
+ConstsDrift(e) == { IF ChkXConsts(e) THEN "drift.consts.same" ELSE "drift.consts.diff" }
+ChkTower(e) == CASE e.op = "x.consts" -> TRUE
                  [] e.op = "x.fq12.mul" -> ChkX12Mul(e)
                  [] e.op = "x.fq12.inv" -> ChkX12Inv(e)
                  [] e.op = "x.fq12.frob" -> ChkX12Frob(e)
